@@ -357,12 +357,12 @@ def run_case(case, obs):
         obs.check(bool(p == q), 'eq-copy', 'p != p.copy()', 'eq')
     elif lane == 'sky':
         prng = random.Random(case['rs'])
-        ws = gen.wcs_spec(prng)
+        ws = gen.wcs_spec(prng, form='cd')
         latfirst = False
         sip = prng.random() < 0.35
         if sip:
             # a distorted (SIP) celestial WCS: 'all' includes the distortion, 'wcs' is the core transformation only
-            ws = gen.wcs_spec(prng, proj='TAN', scale=gen.logu(prng, 1e-5, 1e-3))
+            ws = gen.wcs_spec(prng, proj='TAN', scale=gen.logu(prng, 1e-5, 1e-3), form='cd')
             h = ws['hdr']
             h['CTYPE1'], h['CTYPE2'] = h['CTYPE1'] + '-SIP', h['CTYPE2'] + '-SIP'
             h.update({'A_ORDER': 2, 'B_ORDER': 2, 'A_2_0': prng.uniform(-2e-5, 2e-5), 'A_0_2': prng.uniform(-2e-5, 2e-5), 'A_1_1': prng.uniform(-2e-5, 2e-5),
